@@ -194,7 +194,7 @@ Correlate(a, b) ==
   IN [Construct(chs) EXCEPT !.rew = a.rew \/ b.rew]
 
 \* reweight(w, o): <w*o> / <w> on o's configurations (all = TRUE: normalised on all of w's configurations)
-ReweightRejects(w, o) == \/ o.cov # <<>>
+ReweightRejects(w, o) == \/ o.cov # <<>> \/ w.cov # <<>>      \* covariance inputs present - in the observable or in the weight
                          \/ ~(ChainNames(o) \subseteq ChainNames(w))
                          \/ ~SingleEnsemble(o) \/ ~SingleEnsemble(w)
                          \/ \E n \in ChainNames(o) \cap ChainNames(w) : ~(SeqToSet(Chain(o, n).idl) \subseteq SeqToSet(Chain(w, n).idl))
